@@ -17,6 +17,8 @@ class Facts:
         self.D = D
         self.F = D['F']; self.K = D['K']; self.calls = D['calls']; self.W = D['W']; self.G = D['G']; self.T = D['T']
         self.S = D['S']; self.TB = D['TB']; self.GV = D['GV']
+        self.EN = D.get('EN', [])
+        self.enumconst = {c['n']: c['v'] for e in self.EN for c in e['consts']}
         self.astidx = D['astidx']; self.astbyname = D['astbyname']
         if D['parse_errors']:
             raise AnalysisBroken('clang reported %d parse errors: facts incomplete' % D['parse_errors'])
